@@ -14,6 +14,7 @@ import (
 	"io"
 	"math"
 	"os"
+	"slices"
 	"strings"
 	"sync"
 	"testing"
@@ -2190,3 +2191,93 @@ func contentDefinedCoincidences(t *testing.T, prop string) {
 func TestC07_R_ContentDefinedCoincidences(t *testing.T) { contentDefinedCoincidences(t, "C07") }
 func TestC10_R_ContentDefinedCoincidences(t *testing.T) { contentDefinedCoincidences(t, "C10") }
 func TestC11_R_ContentDefinedCoincidences(t *testing.T) { contentDefinedCoincidences(t, "C11") }
+
+// wideOldStyleFile: a root that records no BlockSizes over n dag-pb leaves of two bytes each (every child has to be opened
+// to be measured).
+func wideOldStyleFile(t *testing.T, n int) (*Store, cid.Cid, []byte) {
+	root := &mnode{HasData: true, UFS: &ufsFields{Type: 2}}
+	var data []byte
+	for i := 0; i < n; i++ {
+		c := []byte{byte(i), byte(i>>8) ^ byte(i>>16)}
+		data = append(data, c...)
+		root.Links = append(root.Links, mlink{Tsize: i64p(10), Child: &mnode{HasData: true, UFS: &ufsFields{Type: 2, HasData: true, Data: c, FileSize: u64p(2)}}})
+	}
+	root.UFS.FileSize = u64p(uint64(len(data)))
+	st := NewStore()
+	rc, err := root.store(st, st.LinkSystem())
+	if err != nil {
+		t.Fatal(err)
+	}
+	return st, rc, data
+}
+
+// C20: a node with hundreds of children that all have to be measured: full reads on fresh nodes request the blocks in
+// the same order every time.
+func TestC20_R_WideOldStyleNodeRepeatable(t *testing.T) {
+	st, rc, data := wideOldStyleFile(t, 600)
+	ls := st.LinkSystem()
+	var first []cid.Cid
+	for run := 0; run < 5; run++ {
+		rn, err := loadReified(ls, rc, "unixfs")
+		if err != nil {
+			t.Fatal(err)
+		}
+		st.ResetLogs()
+		b, err := rn.AsBytes()
+		if err != nil || !bytes.Equal(b, data) {
+			t.Fatalf("C20: wide old-style node: %d bytes, %v", len(b), err)
+		}
+		log := st.ReadLog()
+		if run == 0 {
+			first = log
+		} else if !slices.Equal(log, first) {
+			t.Fatalf("C20: full read #%d of a 600-child node without BlockSizes requested its blocks in another order than read #1 (first difference at request #%d of %d)", run+1, firstCidDiff(log, first), len(first))
+		}
+	}
+}
+
+// C04: a node with more than 2^16 children that have to be measured, read sequentially while one block load half way
+// fails once: the read that met the fault reports it, and the same reader then delivers the rest of the file.
+func TestC04_R_VeryWideOldStyleNodeTransientFault(t *testing.T) {
+	st, rc, data := wideOldStyleFile(t, 66000)
+	ls := st.LinkSystem()
+	for _, failAt := range []int{65536 + 10, 70000, 131072 + 5} {
+		rn, err := loadReified(ls, rc, "unixfs")
+		if err != nil {
+			t.Fatal(err)
+		}
+		rs, err := rn.(datamodel.LargeBytesNode).AsLargeBytes()
+		if err != nil {
+			t.Fatal(err)
+		}
+		st.ResetLogs()
+		st.FailReadAt = failAt
+		var got []byte
+		buf := make([]byte, 4096)
+		faults, spins := 0, 0
+		for spins < 200000 {
+			spins++
+			n, err := rs.Read(buf)
+			got = append(got, buf[:n]...)
+			if err == io.EOF {
+				break
+			}
+			if err != nil {
+				if !isInjected(err) {
+					t.Fatalf("C04: 66000-child node without BlockSizes, load #%d failing once: read failed with %v", failAt, err)
+				}
+				faults++
+				if faults > 3 {
+					t.Fatalf("C04: the one-shot fault was reported %d times", faults)
+				}
+			}
+		}
+		st.FailReadAt = 0
+		if !bytes.Equal(got, data) {
+			t.Fatalf("C04: 66000-child node without BlockSizes, load #%d failing once (reported %d times), the failed read retried on the same reader: %d bytes delivered, the file has %d; first difference at %d", failAt, faults, len(got), len(data), firstDiff(got, data))
+		}
+		if pos, err := rs.Seek(0, io.SeekCurrent); err != nil || pos != int64(len(data)) {
+			t.Fatalf("C04: position after the end = %d, %v", pos, err)
+		}
+	}
+}
